@@ -135,6 +135,12 @@ func accEdge(rng *rand.Rand, es []accEntry, at int) (*boc.Cell, uint64) {
 			g = e.grams
 		}
 		// ahmn_leaf: extra, then account_descr$_ account:^Account last_trans_hash:bits256 last_trans_lt:uint64
+		if !e.exists {
+			// entries for accounts that do not exist are written identically (zero hash and lt, empty label in the long form):
+			// two of them under one fork are EQUAL subtrees, which a bag of cells stores once - both references of the fork
+			// then resolve to the same cell object
+			return mk(labelBits(first[at:l], n-at, 1)+depthBalance(0, 0)+strings.Repeat("0", 256+64), e.acc), 0
+		}
 		return mk(lbl+depthBalance(0, g)+randBits(rng, 256)+ubits(rng.Uint64(), 64), e.acc), g
 	}
 	split := sort.Search(len(es), func(i int) bool { return es[i].key[l] == '1' })
@@ -256,6 +262,14 @@ func (r *rec) balances(items [][2]string) {
 				avals = append(avals, col)
 			}
 			m["avals"] = avals
+			// through a bag of cells, as a state arrives: equal cells become one shared object
+			if bb, e := root.ToBoc(); e != nil {
+				return e
+			} else if rs, e := boc.DeserializeBoc(bb); e != nil || len(rs) != 1 {
+				return fmt.Errorf("state bag does not parse back: %v", e)
+			} else {
+				root = rs[0]
+			}
 			var st tlb.ShardState
 			if e := tlb.Unmarshal(root, &st); e != nil {
 				return e
